@@ -138,16 +138,6 @@ func c02cScen(seed int64, sc c02cScenario) vsync.Scenario {
 			if len(w.bad) > 0 {
 				return o, &vsync.Verdict{Sig: prop + "/concurrent-open-failed", Desc: strings.Join(w.bad, "; ")}
 			}
-			if prop == "C14" {
-				// every message the log path has just delivered opens from its push payload, flagged as already received
-				// (checked now: they are inside the reference window around the last delivered counter)
-				for k := range w.opened {
-					r := w.R.pushOpen(w.pushes[k-1])
-					if !r.ok || string(r.payload) != fmt.Sprintf("payload-%d", k) || !r.received {
-						return o, &vsync.Verdict{Sig: "C14/push-of-received-message-after-concurrent-opens", Desc: fmt.Sprintf("(%s) push payload of message %d, which the log path has delivered: ok=%v received=%v payload=%q err=%s", o, k, r.ok, r.received, r.payload, r.err)}
-					}
-				}
-			}
 			if prop == "C14" && sc.Slide > 0 {
 				// the reference window after the concurrent slides is what the next slide builds on: message Slide goes
 				// through the log now (sequentially); every message around it that the log path can open at this moment
@@ -168,6 +158,17 @@ func c02cScen(seed int64, sc c02cScenario) vsync.Scenario {
 					pr := w.R.onDS(w.R.ds.clone()).pushOpen(w.pushes[k-1])
 					if !pr.ok || string(pr.payload) != fmt.Sprintf("payload-%d", k) {
 						return o, &vsync.Verdict{Sig: "C14/push-in-reference-window-refused-after-concurrent-slides", Desc: fmt.Sprintf("(%s) then message %d through the log: the push payload of message %d (openable through the log, inside the reference window [%d,%d) around the last counter seen) is refused: %s", o, m, k, m-sc.OosN, m+sc.OosN, pr.err)}
+					}
+				}
+			}
+			if prop == "C14" {
+				// every message the log path has just delivered opens from its push payload, flagged as already received
+				// (checked now: they are inside the reference window around the last delivered counter)
+				for k := range w.opened {
+					// on a clone: a push open slides the reference window, and one probe must not decide the next
+					r := w.R.onDS(w.R.ds.clone()).pushOpen(w.pushes[k-1])
+					if !r.ok || string(r.payload) != fmt.Sprintf("payload-%d", k) || !r.received {
+						return o, &vsync.Verdict{Sig: "C14/push-of-received-message-after-concurrent-opens", Desc: fmt.Sprintf("(%s) push payload of message %d, which the log path has delivered: ok=%v received=%v payload=%q err=%s", o, k, r.ok, r.received, r.payload, r.err)}
 					}
 				}
 			}
